@@ -18,7 +18,7 @@ open Mimium.Cells
 inductive BinOp | add | sub | mul | div | lt | le | gt | ge | eq | ne | and | or
 deriving Repr, DecidableEq, Inhabited
 
-inductive UnOp | neg | sqrt | abs | not
+inductive UnOp | neg | sqrt | abs | not | floor | ceil | round
 deriving Repr, DecidableEq, Inhabited
 
 /-- shape of a (first-order) value: used to build the zero value of `self` -/
@@ -160,6 +160,9 @@ def evalUn (op : UnOp) (a : UInt64) : UInt64 :=
   | .sqrt => x.sqrt.toBits
   | .abs => x.abs.toBits
   | .not => fbool (!(x > 0.0))
+  | .floor => x.floor.toBits
+  | .ceil => x.ceil.toBits
+  | .round => x.round.toBits      -- ties away from zero, as Rust's `f64::round`
 
 def findFn (fns : List FnDecl) (f : String) : Option FnDecl := fns.find? (·.name == f)
 
